@@ -17,7 +17,11 @@ Joins == {[comb |-> c, items |-> it, cap |-> k] :
             c \in Combs \cap {"joinvar"}, it \in ItemSeqs(2..MaxInputs), k \in 0..MaxCap}
 Pipes == {[comb |-> c, items |-> <<m, n>>, cap |-> k] :
             c \in Combs \cap {"pipeline"}, m \in 0..MaxInputs, n \in 0..MaxItems, k \in 0..MaxCap}
-Configs == Linear \cup Joins \cup Pipes
+\* do: 2..MaxInputs functions, every failing subset (function i fails with error code i), with and without rendezvous
+Dos == {[comb |-> c, fail |-> f, rv |-> b, items |-> <<>>, cap |-> 0] :
+          c \in Combs \cap {"do"}, b \in BOOLEAN,
+          f \in UNION {{g \in [1..n -> 0..n] : \A i \in 1..n : g[i] \in {0, i}} : n \in 2..MaxInputs}}
+Configs == Linear \cup Joins \cup Pipes \cup Dos
 
 MCInit == \E c \in Configs : InitFor(c)
 MCSpec == MCInit /\ [][Next]_gvars /\ Fair
